@@ -60,12 +60,12 @@ Proof. exact quantile_order. Qed.
 Print Assumptions quantiles_ordered.
 
 Theorem quantile_0_min :
-  forall l, (quantile l 0 4 == qmin_list l 0)%Q /\ (forall x, In x l -> qmin_list l 0 <= x)%Q.
+  forall l, l <> [] -> (quantile l 0 4 == qmin_list l 0)%Q /\ (forall x, In x l -> qmin_list l 0 <= x)%Q.
 Proof. exact quantile_0_is_min. Qed.
 Print Assumptions quantile_0_min.
 
 Theorem quantile_100_max :
-  forall l, (quantile l 4 4 == qmax_list l 0)%Q /\ (forall x, In x l -> x <= qmax_list l 0)%Q.
+  forall l, l <> [] -> (quantile l 4 4 == qmax_list l 0)%Q /\ (forall x, In x l -> x <= qmax_list l 0)%Q.
 Proof. exact quantile_100_is_max. Qed.
 Print Assumptions quantile_100_max.
 
@@ -80,9 +80,17 @@ Theorem median_odd_even :
 Proof. intros s k. split; [apply quantile_median_odd|apply quantile_median_even]. Qed.
 Print Assumptions median_odd_even.
 
-(* ---- category counts: value_counts is a relation, accepted iff it lists every
-   distinct non-missing value exactly once with its exact count, counts non-increasing
-   (every earlier count >= every later one) -- whatever tie order pandas picks. *)
+(* ---- category counts.  BY DESIGN there is no model of pandas' value_counts / StatType.COUNT.compute:
+   its tie order is unspecified, so it is not predicted.  `valid_count_order o col` is a CHECKER that
+   ./check C03 applies to the statistics `o` the implementation reported for the column `col` of every
+   generated case.  The theorem below is about that checker only: it says what an accepted answer
+   means -- every distinct non-missing value exactly once, with its exact occurrence count, every
+   earlier count >= every later one, whatever tie order pandas picked.  That the CODE returns an
+   accepted answer is therefore established per checked case (correspondence + oracle), not for all
+   columns; the same holds for `index_space` (about the checker's category list and the small
+   `encode_cat`; the real mapper pipeline is C01's) and for the observed half of `binary_target_sorted`.
+   Columns of pandas `category` dtype (which list never-occurring categories with count 0) are outside
+   the quantifier and are rejected by the checker. *)
 Theorem valid_count_order_sound :
   forall o col,
     valid_count_order o col = true <->
